@@ -254,7 +254,7 @@ pub struct Trees {
     memo: HashMap<(u8, usize, bool, bool), std::sync::Arc<Vec<H>>>,
 }
 
-fn leaves(level: u8, in_bind: bool) -> Vec<H> {
+pub fn leaves(level: u8, in_bind: bool) -> Vec<H> {
     let mut out = vec![H::Eff(0)];
     if level == 0 {
         out.push(H::SetV(X::Lit(0)));
